@@ -263,7 +263,7 @@ let run_admit (parts : string list) : string =
   let out = ref [] in
   let name o = match o with
     | OAccepted -> "ACCEPT" | OConnClosed -> "CLOSED" | OAnswered -> "ANS" | ORefused -> "REFUSED"
-    | O503 -> "503" | OStreamClosed -> "SCLOSED" in
+    | O503 -> "503" | OStreamClosed -> "SCLOSED" | OBadRequest -> "400" in
   let do_step e = let (r', o) = listener_step !r Z0 e in r := r'; o in
   let query l a =
     (* connection-oriented listeners: the connection cost is charged when the client's connection is opened *)
@@ -280,6 +280,7 @@ let run_admit (parts : string list) : string =
     | ["qq"; a] -> query LQuic (c15_addr a)
     | ["hc"; a] -> out := name (do_step (AConn (LmHttp, c15_addr a))) :: !out
     | ["hq"; a] -> out := name (do_step (AQuery (LmHttp, c15_addr a, false))) :: !out
+    | ["hx"; _] -> out := name (do_step (ABadAddr LmHttp)) :: !out
     | _ -> failwith ("bad step " ^ st)) (split_on ',' (fld f "steps"));
   "out=" ^ String.concat "," (List.rev !out)
 
